@@ -33,6 +33,8 @@ func (v *Verifier) strPrelude(c *Ctx) {
 	c.assert("(forall ((s! Str)) (! (and (<= 0 (slen s!)) (<= (slen s!) "+maxLenTerm+")) :pattern ((slen s!))))", "string length range")
 	c.assert("(forall ((s! Str) (i! Int)) (! (and (<= 0 (sbyte s! i!)) (< (sbyte s! i!) 256)) :pattern ((sbyte s! i!))))", "byte range")
 	c.assert("(forall ((s! Str) (i! Int)) (! (and (<= 1 (swidth s! i!)) (<= (swidth s! i!) 4) (=> (and (<= 0 i!) (< i! (slen s!))) (<= (+ i! (swidth s! i!)) (slen s!)))) :pattern ((swidth s! i!))))", "rune width")
+	c.assert("(forall ((s! Str) (i! Int)) (! (=> (not (= (srune s! i!) 65533)) (= (swidth s! i!) (ite (< (srune s! i!) 128) 1 (ite (< (srune s! i!) 2048) 2 (ite (< (srune s! i!) 65536) 3 4))))) :pattern ((swidth s! i!))))", "width of a validly decoded rune")
+	c.assert("(forall ((s! Str) (i! Int)) (! (=> (= (srune s! i!) 65533) (or (= (swidth s! i!) 1) (= (swidth s! i!) 3))) :pattern ((swidth s! i!))))", "U+FFFD is either a real 3-byte rune or one invalid byte")
 	c.assert("(forall ((s! Str) (i! Int)) (! (and (<= 0 (srune s! i!)) (<= (srune s! i!) 1114111) (=> (< (sbyte s! i!) 128) (and (= (srune s! i!) (sbyte s! i!)) (= (swidth s! i!) 1))) (=> (>= (sbyte s! i!) 128) (and (>= (srune s! i!) 128) (=> (= (swidth s! i!) 1) (= (srune s! i!) 65533))))) :pattern ((srune s! i!))))", "rune decode")
 }
 
@@ -76,17 +78,35 @@ func (v *Verifier) substr(c *Ctx, s, lo, hi Term) Term {
 
 // []rune(s) / []byte(s)
 func (v *Verifier) strToSlice(fr *Frame, x Val, to types.Type, st *State) Val {
+	ref := fr.ctx.freshConst("convref", "Int")
+	fr.ctx.assert(le(st.nxt, ref), "fresh conversion result")
+	fr.v.knownNonNil[ref] = true
+	return v.strToSliceAt(fr, x, to, st, ref)
+}
+
+func (v *Verifier) strToSliceAt(fr *Frame, x Val, to types.Type, st *State, ref Term) Val {
 	c := fr.ctx
 	et := to.Underlying().(*types.Slice).Elem()
 	res := fr.freshVal(to, "conv")
-	c.assert(and(le(st.nxt, res.A), eq(res.Off, "0")), "fresh conversion result")
+	c.assert(and(eq(res.A, ref), eq(res.Off, "0")), "fresh conversion result")
+	res.A = ref
+	res.Off = "0"
 	if b, ok := et.Underlying().(*types.Basic); ok && b.Kind() == types.Uint8 {
 		c.assert(eq(res.Len, app("slen", x.A)), "[]byte(s) length")
 		fr.note("[]byte(s): contents not modelled")
 	} else {
-		f := c.declareFun("runecount", []string{"Str"}, "Int")
-		c.assert(and(eq(res.Len, app(f, x.A)), le("0", app(f, x.A)), le(app(f, x.A), app("slen", x.A))), "[]rune(s) length")
-		fr.note("[]rune(s): contents not modelled")
+		// []rune(s) is DecodeOf(result, s) in the trusted decode spec
+		rc := c.declareFun("G!lib.RuneCount", []string{"Str"}, "Int")
+		rs := c.declareFun("G!lib.RuneStart", []string{"Str", "Int"}, "Int")
+		if sf := v.contracts.Specs["lib.RuneCount"]; sf != nil {
+			v.libAxiomsFor(&Env{fr: fr, cur: st, old: st}, sf)
+		}
+		if sf := v.contracts.Specs["lib.RuneStart"]; sf != nil {
+			v.libAxiomsFor(&Env{fr: fr, cur: st, old: st}, sf)
+		}
+		c.assert(eq(res.Len, app(rc, x.A)), "[]rune(s) length")
+		row := fr.rd(st, "E:"+typeName(et), arr2Sort("Int"), res.A)
+		c.assert(fmt.Sprintf("(forall ((k! Int)) (! (=> (and (<= 0 k!) (< k! %s)) (= (select %s k!) (srune %s (%s %s k!)))) :pattern ((select %s k!))))", res.Len, row, x.A, rs, x.A, row), "[]rune(s) contents")
 	}
 	fr.rootFrame().allocNote = true
 	return res
